@@ -985,6 +985,7 @@ Proof.
   - destruct sa; try discriminate. intros _. rewrite Z.compare_refl. rewrite Pos.compare_cont_refl. reflexivity.
 Qed.
 
+Local Opaque bits2f f2bits.
 (* counter calls and their (float) amounts *)
 Definition is_ctr_call (c : call) : bool := match c with CInc | CAdd _ | CFlush _ | CGet | CReset => true | _ => false end.
 Definition famt (c : call) : flt :=
@@ -996,42 +997,47 @@ Lemma f_step_nonneg c s s' x : nonneg_call c = true -> PrimFloat.leb 0 s = true 
   PrimFloat.leb 0 s' = true.
 Proof.
   unfold nonneg_call. intros Hc Hs. apply andb_prop in Hc. destruct Hc as [Hk Ha].
-  destruct c as [ | |b|b|b| | |b|b|b| | | |k0 d0|k0| | | ]; cbn in Hk; try discriminate; cbn in *; intros E; inversion E; subst; auto.
+  destruct c as [ | |b|b|b| | |b|b|b| | | |k0 d0|k0| | | ]; cbn in Hk; try discriminate Hk;
+    cbn [spec_step FloatOps vadd vsub V vone vzero of_bits to_bits vis_zero famt] in *; intros E; inversion E; subst; clear E.
   - apply (add_mono s 1 Hs Ha).
   - apply (add_mono s (bits2f b) Hs Ha).
-  - destruct (PrimFloat.eqb (bits2f b) 0); auto. apply (add_mono s (bits2f b) Hs Ha).
+  - exact Hs.
+  - reflexivity.
+  - destruct (PrimFloat.eqb (bits2f b) 0); [exact Hs|]. apply (add_mono s (bits2f b) Hs Ha).
 Qed.
 Lemma f_run_nonneg cs : forall s s' xs, forallb nonneg_call cs = true -> PrimFloat.leb 0 s = true ->
   spec_run FloatOps s cs = Some (s', xs) -> PrimFloat.leb 0 s' = true.
 Proof.
   induction cs as [|c cs IH]; cbn; intros s s' xs F Hs H.
-  - inversion H; subst; auto.
+  - inversion H; subst; exact Hs.
   - apply andb_prop in F. destruct F as [Fc F].
-    destruct (spec_step FloatOps s c) as [[s1 x]|] eqn:E; try discriminate.
-    destruct (spec_run FloatOps s1 cs) as [[s2 x2]|] eqn:E2; try discriminate. inversion H; subst.
-    eapply IH; eauto. eapply f_step_nonneg; eauto.
+    destruct (spec_step FloatOps s c) as [[s1 x]|] eqn:E; try discriminate H.
+    destruct (spec_run FloatOps s1 cs) as [[s2 x2]|] eqn:E2; try discriminate H. inversion H; subst.
+    eapply (IH s1); [exact F| |exact E2]. eapply f_step_nonneg; [exact Fc|exact Hs|exact E].
 Qed.
 Lemma f_step_mono c s s' x : nonneg_inc c = true -> PrimFloat.leb 0 s = true -> spec_step FloatOps s c = Some (s', x) ->
   PrimFloat.leb s s' = true.
 Proof.
   unfold nonneg_inc. intros Hc Hs. apply andb_prop in Hc. destruct Hc as [Hk Ha].
-  destruct c as [ | |b|b|b| | |b|b|b| | | |k0 d0|k0| | | ]; cbn in Hk; try discriminate; cbn in *; intros E; inversion E; subst; auto using leb_refl_nonneg.
+  destruct c as [ | |b|b|b| | |b|b|b| | | |k0 d0|k0| | | ]; cbn in Hk; try discriminate Hk;
+    cbn [spec_step FloatOps vadd vsub V vone vzero of_bits to_bits vis_zero famt] in *; intros E; inversion E; subst; clear E.
   - apply (add_mono s 1 Hs Ha).
   - apply (add_mono s (bits2f b) Hs Ha).
-  - destruct (PrimFloat.eqb (bits2f b) 0); auto using leb_refl_nonneg. apply (add_mono s (bits2f b) Hs Ha).
+  - apply leb_refl_nonneg, Hs.
+  - destruct (PrimFloat.eqb (bits2f b) 0); [apply leb_refl_nonneg, Hs|]. apply (add_mono s (bits2f b) Hs Ha).
 Qed.
 Lemma nonneg_inc_call c : nonneg_inc c = true -> nonneg_call c = true.
-Proof. unfold nonneg_inc, nonneg_call. destruct c; cbn; auto. Qed.
+Proof. unfold nonneg_inc, nonneg_call. destruct c; cbn [is_ctr_inc is_ctr_call andb]; intros H; first [exact H | discriminate H]. Qed.
 Lemma f_run_mono cs : forall s s' xs, forallb nonneg_inc cs = true -> PrimFloat.leb 0 s = true ->
   spec_run FloatOps s cs = Some (s', xs) -> PrimFloat.leb s s' = true.
 Proof.
   induction cs as [|c cs IH]; cbn; intros s s' xs F Hs H.
-  - inversion H; subst; auto using leb_refl_nonneg.
+  - inversion H; subst. apply leb_refl_nonneg, Hs.
   - apply andb_prop in F. destruct F as [Fc F].
-    destruct (spec_step FloatOps s c) as [[s1 x]|] eqn:E; try discriminate.
-    destruct (spec_run FloatOps s1 cs) as [[s2 x2]|] eqn:E2; try discriminate. inversion H; subst.
-    eapply leb_trans; [eapply f_step_mono; eauto|].
-    eapply IH; eauto. eapply f_step_nonneg; eauto using nonneg_inc_call.
+    destruct (spec_step FloatOps s c) as [[s1 x]|] eqn:E; try discriminate H.
+    destruct (spec_run FloatOps s1 cs) as [[s2 x2]|] eqn:E2; try discriminate H. inversion H; subst.
+    eapply leb_trans; [eapply f_step_mono; [exact Fc|exact Hs|exact E]|].
+    eapply (IH s1); [exact F| |exact E2]. eapply f_step_nonneg; [apply nonneg_inc_call, Fc|exact Hs|exact E].
 Qed.
 
 (* ---- C01, float counter: reads that follow one another do not decrease (non-negative, non-NaN increments;
@@ -1056,8 +1062,8 @@ Qed.
 (* ---- C11, float gauge: sub x is the atomic addition of -x ... *)
 Theorem c11_sub_is_add_neg_f64 (s : flt) (x : N) :
   spec_step FloatOps s (CSub x) = Some ((s + - bits2f x)%float, RUnit) /\
-  plan_of FloatOps (CSub x) = Some (PLoop (- bits2f x)%float).
-Proof. split; cbn; [now rewrite sub_add_opp|reflexivity]. Qed.
+  plan_of FloatOps (CSub x) = Some (@PLoop FloatOps (- bits2f x)%float).
+Proof. split; cbn [spec_step plan_of subber FloatOps use_cas vsub vneg V of_bits]; [now rewrite sub_add_opp|reflexivity]. Qed.
 
 (* ... which gives back s (as a number) exactly when s + x was exact *)
 Theorem c11_sub_undoes_add_f64_exact (s x : flt) :
@@ -1107,4 +1113,7 @@ Lemma flush_twice_int (v : N) : let '(c1, v1) := local_flush IntOps v in let '(c
 Proof. cbn. auto. Qed.
 Lemma flush_twice_float (v : flt) : let '(c1, v1) := local_flush FloatOps v in let '(c2, v2) := local_flush FloatOps v1 in
   c1 = CFlush (f2bits v) /\ plan_of FloatOps c2 = Some PNoop /\ v2 = 0%float.
-Proof. cbn. split; auto. split; auto. vm_compute. reflexivity. Qed.
+Proof. cbn [local_flush FloatOps to_bits vzero]. split; [reflexivity|]. split; [|reflexivity].
+  cbn [plan_of FloatOps vis_zero of_bits V].
+  replace (PrimFloat.eqb (bits2f (f2bits 0)) 0) with true by (vm_compute; reflexivity). reflexivity.
+Qed.
